@@ -495,6 +495,14 @@ func (en *DefaultEngine) Exec(ctx context.Context, input []byte) (bool, error) {
 		ctx = context.WithValue(ctx, "SessionId", en.cfg.SessionId)
 	}
 
+	// input in no accepted format is refused before anything is set up for it
+	if len(input) > 0 {
+		_, err = vm.ValidInput(input)
+		if err != nil {
+			return true, err
+		}
+	}
+
 	cont, err := en.init(ctx, input)
 	if err != nil {
 		return false, err
@@ -516,12 +524,6 @@ func (en *DefaultEngine) Exec(ctx context.Context, input []byte) (bool, error) {
 		}
 	}
 
-	if len(input) > 0 {
-		_, err = vm.ValidInput(input)
-		if err != nil {
-			return true, err
-		}
-	}
 	err = en.st.SetInput(input)
 	if err != nil {
 		return false, err
